@@ -45,6 +45,13 @@ def check(ctx):
     loop = PlacementLoop(ctx)
     func, graph, head, var = loop.func, loop.graph, loop.head, loop.var
     nz = loop.nz
+    # shared with C03.5: an instance in place is moved for a lease renewal
+    # only when the renewal really failed - Server.renew decides through the
+    # admission lifetime test (no lease: always renewable) and the fallback
+    # restores the recorded server and expiry
+    from . import c03
+    with ctx.shared({'C03': 'C07.4'}):
+        c03._renewal(ctx, nz, ctx.index.get_class(K.SCHED, 'Server'), loop)
     body = loop.body()
     queue = N.txt(head.ast.iter)
     # ---- C07.1 -----------------------------------------------------------
